@@ -56,7 +56,10 @@ def stepLine (d : DS) (args : List String) : DS × String :=
       let os := match o with
         | .accepted cl m => "accepted\t" ++ encStr cl ++ "\t" ++ methodStr m
         | .authnError => "authnError" | .unknownClient => "unknownClient" | .invalidClient => "invalidClient" | .nothing => "nothing"
-      ({ d with st := st' }, os ++ "\t|" ++ toString st'.jtiSeen.length)
+      let ts := match treatedAs d.cfg o p1 with
+        | none => "T:-"
+        | some (i, a) => "T:" ++ (match i with | some x => encStr x | none => "none") ++ ":" ++ (if a then "1" else "0")
+      ({ d with st := st' }, os ++ "\t" ++ ts ++ "\t|" ++ toString st'.jtiSeen.length)
     | _, _, _, _, _ => (d, "bad-op")
   | _ => (d, "bad-op")
 
